@@ -42,6 +42,12 @@ def stateDigest (p : Panel) (c : Ctrl) (planes : List Nat) : String :=
   | .uc u =>
     s!"planes={planes} ram={hex16 h} partial={u.partialOn} powered={u.powered} asleep={u.asleep}"
 
+/-- digest of one plane's panel region -/
+def planeDigest (p : Panel) (c : Ctrl) (pl : Nat) : String :=
+  let wb := planeBytes p pl c / p.height
+  hex16 ((List.range p.height).foldl (fun h r =>
+    (List.range wb).foldl (fun h col => mix h (planeAt c pl (rowMap p.name r) col).toUInt64) h) (mix H0 (UInt64.ofNat pl)))
+
 /-! ## C05 monitor over the events of a whole scenario -/
 
 structure Mon where
@@ -177,6 +183,8 @@ def panelVerdicts (f : Feat) (props : List String) (p : Panel) (sc : Scenario) (
         acc := acc.add "C18" (c18Window p a after)
     if ok ∧ (name == "upd") then
       probePlanes := ((newEpis before after).map (·.plane)).eraseDups.mergeSort (· ≤ ·)
+    -- (a call that did not return Ok ends the judged part of the scenario: no probe to compare)
+    if !ok ∧ want "C02" then probePlanes := []
     -- C01 / C02: full-frame delivery
     if ok ∧ fullOps.contains name ∧ !(fullTargets p.name name).isEmpty then
       if want "C01" then
@@ -268,6 +276,10 @@ def panelVerdicts (f : Feat) (props : List String) (p : Panel) (sc : Scenario) (
     prevBg := t.bg
     k := k + 1
   if want "C04" then acc := { acc with notes := acc.notes ++ [s!"C04 {stateDigest p sim.peek probePlanes}"] }
+  -- C02: what the last full-frame update left in every plane, and which planes it wrote — compared
+  -- with the same update after the history's setting calls only (tools/scenarios.py post_c02)
+  if want "C02" then acc := { acc with notes := acc.notes ++
+    [s!"C02 w={",".intercalate (probePlanes.map toString)} p0={planeDigest p sim.peek 0} p1={planeDigest p sim.peek 1}"] }
   if want "C12" then acc := { acc with notes := acc.notes ++ [s!"C12 wire={hex16 wHash}"] }
   return acc
 
